@@ -5,3 +5,4 @@ pub mod syntax;
 pub mod schema;
 pub mod json;
 pub mod schema_mut;
+pub mod adversary;
